@@ -575,8 +575,6 @@ namespace c17
     case 3: c.maxw = std::min<std::size_t>(24, std::size_t(ncells_selected) + std::size_t(t.range(1, 3))); break;
     case 4: c.maxw = 1; break; default: c.maxw = 0; break;
     }
-    // mesh permutation: 'colored' makes the automatic strategy resolve to colored
-    c.mesh_perm = t.pick({ 6, 3, 1, 1, 1, 1 });
     return c;
   }
 
